@@ -11,20 +11,17 @@ Record vmetrics : Set := mkVM {
 
 Definition is_ctrl (b : byte) : bool := (b2n b <=? 31)%N || (b2n b =? 127)%N.
 
-(* the counters are u8: `prev += 1` overflows (debug: panic, release: wraps) at 256 *)
-Inductive wres (A : Type) : Type := WOk (a : A) | WOverflow.
-Arguments WOk {A}. Arguments WOverflow {A}.
+(* the counters are u8 and saturate: `prev = prev.saturating_add(1)` *)
+Definition qnext (cur : N) (hit : bool) : N :=
+  if hit then (if (cur =? 255)%N then 255%N else (cur + 1)%N) else 0%N.
 
-(* ValueMetrics::calculate; `wrap` = release-build behaviour of u8 `+= 1` *)
-Fixpoint vmetrics_loop (wrap : bool) (s : bytes) (ps pd : N) (m : vmetrics) : wres vmetrics :=
+(* ValueMetrics::calculate *)
+Fixpoint vmetrics_loop (s : bytes) (ps pd : N) (m : vmetrics) : vmetrics :=
   match s with
-  | [] => WOk m
+  | [] => m
   | b :: r =>
-    let step (cur : N) (hit : bool) : wres N :=
-      if hit then (if (cur =? 255)%N then (if wrap then WOk 0%N else WOverflow) else WOk (cur + 1)%N)
-      else WOk 0%N in
-    match step ps (byte_eqb b x27), step pd (byte_eqb b x22) with
-    | WOk ps', WOk pd' =>
+      let ps' := qnext ps (byte_eqb b x27) in
+      let pd' := qnext pd (byte_eqb b x22) in
       let m1 := mkVM (if byte_eqb b x27 then N.max (max_seq_single_quotes m) ps' else max_seq_single_quotes m)
                      (if byte_eqb b x22 then N.max (max_seq_double_quotes m) pd' else max_seq_double_quotes m)
                      (vm_escape_codes m) (vm_escape m) (vm_newline m) in
@@ -34,12 +31,10 @@ Fixpoint vmetrics_loop (wrap : bool) (s : bytes) (ps pd : N) (m : vmetrics) : wr
         else if byte_eqb b x0a then mkVM (max_seq_single_quotes m1) (max_seq_double_quotes m1) (vm_escape_codes m1) (vm_escape m1) true
         else if is_ctrl b then mkVM (max_seq_single_quotes m1) (max_seq_double_quotes m1) true (vm_escape m1) (vm_newline m1)
         else m1 in
-      vmetrics_loop wrap r ps' pd' m2
-    | _, _ => WOverflow
-    end
+      vmetrics_loop r ps' pd' m2
   end.
-Definition vmetrics_of (wrap : bool) (s : bytes) : wres vmetrics :=
-  vmetrics_loop wrap s 0 0 (mkVM 0 0 false false false).
+Definition vmetrics_of (s : bytes) : vmetrics :=
+  vmetrics_loop s 0 0 (mkVM 0 0 false false false).
 
 (* write_toml_value, the `escaped` branch: one scan of the inner `for` loop.
    Returns (unescaped_end, escaped text if any). *)
